@@ -788,6 +788,7 @@ Examples:
                 v.add(i); found = True; break
         if not found:
             collapse[i] = set((j,))
+    for k,v in collapse.items(): v.discard(k) # not connected to itself
     return collapse
 
 
